@@ -41,51 +41,53 @@ type Step struct {
 	Op string `json:"op"`
 	K  int    `json:"k"`
 	// connect
-	Cid      string `json:"cid"`
-	Ver      int    `json:"ver"`
-	Clean    bool   `json:"clean"`
-	RecvMax  int    `json:"recvmax"`
-	Expiry   *int64 `json:"expiry"` // session expiry (v5 CONNECT / DISCONNECT property)
-	KeepAl   int    `json:"keepalive"`
-	MaxPkt   int    `json:"maxpkt"`   // client's Maximum Packet Size
-	AliasMax int    `json:"aliasmax"` // client's Topic Alias Maximum
-	NoSent   bool   `json:"nosentinel"`
-	ManualAck bool  `json:"manualack"` // deliveries are not acknowledged automatically
-	Will     *struct {
-		Topic   string `json:"topic"`
-		Qos     int    `json:"qos"`
-		Retain  bool   `json:"retain"`
-		Tag     string `json:"tag"`
-		Delay   int64  `json:"delay"`
-		Expiry  int64  `json:"expiry"`
+	Cid       string `json:"cid"`
+	Ver       int    `json:"ver"`
+	Clean     bool   `json:"clean"`
+	RecvMax   int    `json:"recvmax"`
+	Expiry    *int64 `json:"expiry"` // session expiry (v5 CONNECT / DISCONNECT property)
+	KeepAl    int    `json:"keepalive"`
+	MaxPkt    int    `json:"maxpkt"`   // client's Maximum Packet Size
+	AliasMax  int    `json:"aliasmax"` // client's Topic Alias Maximum
+	NoSent    bool   `json:"nosentinel"`
+	ManualAck bool   `json:"manualack"` // deliveries are not acknowledged automatically
+	Will      *struct {
+		Topic  string `json:"topic"`
+		Qos    int    `json:"qos"`
+		Retain bool   `json:"retain"`
+		Tag    string `json:"tag"`
+		Delay  int64  `json:"delay"`
+		Expiry int64  `json:"expiry"`
 	} `json:"will"`
 	// subscribe / unsubscribe
 	Subs  []Sub    `json:"subs"`
 	SubID int      `json:"subid"`
 	Names []string `json:"names"`
 	// publish
-	Topic  string `json:"topic"`
-	Qos    int    `json:"qos"`
-	Retain bool   `json:"retain"`
-	Tag    string `json:"tag"`
-	Dup    bool   `json:"dup"`
-	Pid    int    `json:"pid"`     // explicit packet id (0 = choose)
-	MsgExp int64  `json:"msgexp"`  // message expiry interval (0 = none)
-	Alias  int    `json:"alias"`   // topic alias to send (0 = none)
-	NoTopic bool  `json:"notopic"` // send alias only
-	Pad    int    `json:"pad"`     // payload padded with '.' up to this many bytes (tag first)
-	NoRel  bool   `json:"norel"`   // QoS2: do not send PUBREL after PUBREC
-	Fq     int    `json:"fq"`      // QoS at which the one size-limited subscriber of the scenario would get it (for fsize)
+	Topic   string `json:"topic"`
+	Qos     int    `json:"qos"`
+	Retain  bool   `json:"retain"`
+	Tag     string `json:"tag"`
+	Dup     bool   `json:"dup"`
+	Pid     int    `json:"pid"`     // explicit packet id (0 = choose)
+	MsgExp  int64  `json:"msgexp"`  // message expiry interval (0 = none)
+	Alias   int    `json:"alias"`   // topic alias to send (0 = none)
+	NoTopic bool   `json:"notopic"` // send alias only
+	Pad     int    `json:"pad"`     // payload padded with '.' up to this many bytes (tag first)
+	NoRel   bool   `json:"norel"`   // QoS2: do not send PUBREL after PUBREC
+	Fq      int    `json:"fq"`      // QoS at which the one size-limited subscriber of the scenario would get it (for fsize)
 	// ack (manual)
-	T    string `json:"t"` // "puback" | "pubrec" | "pubcomp" | "pubrel" | "auto"
+	T    string `json:"t"`   // "puback" | "pubrec" | "pubcomp" | "pubrel" | "auto"
 	Sel  int    `json:"sel"` // with t = "auto": acknowledge the (sel mod n)-th oldest unacknowledged delivery
 	Code int    `json:"code"`
 	// disconnect
 	// misc
 	Ms       int      `json:"ms"`
 	Branches [][]Step `json:"branches"`
-	Wait     string   `json:"wait"` // for "expect": what to wait for
-	Hex      string   `json:"hex"`  // raw bytes to send
+	Gated    bool     `json:"gated"` // connect: the broker goroutine of this connection parks at the gate hooks; do not wait for CONNACK
+	Point    string   `json:"point"` // release: the gate the connection is expected to be parked at
+	Wait     string   `json:"wait"`  // for "expect": what to wait for
+	Hex      string   `json:"hex"`   // raw bytes to send
 }
 
 // Scenario is a broker configuration plus a script.
@@ -102,10 +104,10 @@ type Scenario struct {
 		MsgExpiry   int    `json:"msgexpiry"`  // seconds, 0 = off
 		SessExpiry  int    `json:"sessexpiry"` // seconds
 	} `json:"cfg"`
-	Steps []Step `json:"steps"`
-	Slow  bool   `json:"slow"`
-	Hooks bool   `json:"hooks"`
-	AnyDisc bool `json:"anydisc"` // the script makes a client misbehave on purpose: any error DISCONNECT may follow
+	Steps   []Step `json:"steps"`
+	Slow    bool   `json:"slow"`
+	Hooks   bool   `json:"hooks"`
+	AnyDisc bool   `json:"anydisc"` // the script makes a client misbehave on purpose: any error DISCONNECT may follow
 }
 
 type Timeouts struct {
@@ -123,25 +125,29 @@ func DefaultTimeouts(slow bool) Timeouts {
 
 // actor is one scripted connection.
 type actor struct {
-	k       int
-	cid     string
-	ver     byte
-	c       *mw.Client
-	run     *Run
-	manual  bool
-	mu      sync.Mutex
-	cond    *sync.Cond
-	seen    []*mw.Packet // everything read so far
-	eof     bool
-	nextPid uint16
-	alias   map[uint16]string // inbound (server -> client) alias bindings
-	sent    bool              // has a sentinel subscription
-	done    chan struct{}
+	k          int
+	cid        string
+	ver        byte
+	c          *mw.Client
+	run        *Run
+	manual     bool
+	mu         sync.Mutex
+	cond       *sync.Cond
+	seen       []*mw.Packet // everything read so far
+	eof        bool
+	nextPid    uint16
+	alias      map[uint16]string // inbound (server -> client) alias bindings
+	sent       bool              // has a sentinel subscription
+	done       chan struct{}
 	closedByUs bool
-	unacked []*outEntry // QoS>0 deliveries read and not yet fully acknowledged by us (order of first receipt)
-	limit   int         // min(our Receive Maximum, broker max_inflight): used only to choose the barrier method
-	logmu   sync.Mutex // makes "log a received packet" and "log our own close + mute" atomic
-	muted   bool       // we have ended the connection: what still arrives is no longer observed
+	acked      bool        // a successful CONNACK has been logged for this connection
+	ackPos     int         // length of the log when it was
+	connectPos int         // length of the log when CONNECT was logged
+	eofSeen    bool        // its end has been logged (or it was muted when it ended)
+	unacked    []*outEntry // QoS>0 deliveries read and not yet fully acknowledged by us (order of first receipt)
+	limit      int         // min(our Receive Maximum, broker max_inflight): used only to choose the barrier method
+	logmu      sync.Mutex  // makes "log a received packet" and "log our own close + mute" atomic
+	muted      bool        // we have ended the connection: what still arrives is no longer observed
 }
 
 type outEntry struct {
@@ -153,16 +159,110 @@ type outEntry struct {
 
 // Run is the execution of one scenario.
 type Run struct {
-	Sc     *Scenario
-	B      *inproc.Broker
-	Rec    *inproc.Recorder
-	TO     Timeouts
-	actors map[int]*actor
+	Sc        *Scenario
+	B         *inproc.Broker
+	Rec       *inproc.Recorder
+	TO        Timeouts
+	actors    map[int]*actor
 	lastByCid map[string]*actor
-	amu    sync.Mutex
-	sentN  int
-	Notes  []string
-	Fatal  string // machinery trouble (not a verdict)
+	amu       sync.Mutex
+	sentN     int
+	Notes     []string
+	Fatal     string // machinery trouble (not a verdict)
+	// schedule gating (DESIGN.md 2.2 SG): broker goroutines of gated connections park at server.VerifGate call sites
+	gmu      sync.Mutex
+	gated    map[string]bool  // conn address -> parks at gates
+	parked   map[string]*park // conn address -> where it is parked now
+	Followed int              // release steps that found the connection parked where the schedule says
+	Diverged int              // release steps that did not
+}
+
+type park struct {
+	point string
+	ch    chan struct{}
+}
+
+// gate is server.VerifGate for this run: a gated connection blocks until the script releases it.
+func (r *Run) gate(point string, kv map[string]interface{}) {
+	conn, _ := kv["conn"].(string)
+	r.gmu.Lock()
+	if !r.gated[conn] {
+		r.gmu.Unlock()
+		return
+	}
+	p := &park{point: point, ch: make(chan struct{})}
+	r.parked[conn] = p
+	r.gmu.Unlock()
+	select {
+	case <-p.ch:
+	case <-time.After(20 * time.Second):
+		r.note("gate " + point + " of " + conn + " was never released")
+	}
+}
+
+func (r *Run) parkedAt(conn string) string {
+	r.gmu.Lock()
+	defer r.gmu.Unlock()
+	if p := r.parked[conn]; p != nil {
+		return p.point
+	}
+	return ""
+}
+
+// settle waits until the gated connection of a is parked at a gate, acknowledged or ended (whatever comes first).
+func (r *Run) settle(a *actor, d time.Duration) string {
+	deadline := time.Now().Add(d)
+	for {
+		if pt := r.parkedAt(a.c.LocalAddr()); pt != "" {
+			return pt
+		}
+		a.mu.Lock()
+		done := a.eof
+		for _, p := range a.seen {
+			if p.Type == mw.CONNACK {
+				done = true
+			}
+		}
+		a.mu.Unlock()
+		if done {
+			return "done"
+		}
+		if !time.Now().Before(deadline) {
+			return "timeout"
+		}
+		time.Sleep(200 * time.Microsecond)
+	}
+}
+
+// release lets the parked broker goroutine of connection k run to its next gate (or to the end of its CONNECT).
+func (r *Run) release(s *Step) {
+	a := r.actor(s.K)
+	if a == nil {
+		r.Fatal = "release: no actor"
+		return
+	}
+	conn := a.c.LocalAddr()
+	at := r.settle(a, 2*time.Second)
+	if at != s.Point {
+		// the code did not take the step the schedule (the model) predicted: the trace is still validated
+		r.Diverged++
+		r.note(fmt.Sprintf("schedule: connection %d expected at gate %s, found %s", s.K, s.Point, at))
+		if at == "done" || at == "timeout" {
+			return
+		}
+	} else {
+		r.Followed++
+	}
+	r.gmu.Lock()
+	p := r.parked[conn]
+	delete(r.parked, conn)
+	r.gmu.Unlock()
+	if p != nil {
+		close(p.ch)
+	}
+	if r.settle(a, 3*time.Second) == "timeout" {
+		r.note(fmt.Sprintf("schedule: connection %d neither parked nor finished 3 s after its release", s.K))
+	}
 }
 
 func lv(topic string) []string { return strings.Split(topic, "/") }
@@ -237,7 +337,8 @@ func Execute(sc *Scenario, extra ...server.Options) (*Run, []inproc.Event) {
 			r.Rec.Log(inproc.Event{"e": "dropped", "cid": clientID, "tag": tag, "qos": int(msg.QoS), "reason": reason})
 		}})}
 	}
-	b, err := inproc.Start(inproc.Options{Cfg: cfg, Rec: r.Rec, Server: extra})
+	r.gated, r.parked = map[string]bool{}, map[string]*park{}
+	b, err := inproc.Start(inproc.Options{Cfg: cfg, Rec: r.Rec, Server: extra, Gate: r.gate})
 	if err != nil {
 		r.Fatal = "broker start: " + err.Error()
 		return r, r.Rec.Events()
@@ -251,10 +352,19 @@ func Execute(sc *Scenario, extra ...server.Options) (*Run, []inproc.Event) {
 		}()
 		r.steps(sc.Steps)
 	}()
-	// tear down: close what is still open (not part of the trace)
+	// tear down: release whatever is still parked, close what is still open (not part of the trace)
+	r.gmu.Lock()
+	r.gated = map[string]bool{}
+	for c, p := range r.parked {
+		close(p.ch)
+		delete(r.parked, c)
+	}
+	r.gmu.Unlock()
 	r.amu.Lock()
 	for _, a := range r.actors {
+		a.mu.Lock()
 		a.closedByUs = true
+		a.mu.Unlock()
 		a.logmu.Lock()
 		a.muted = true
 		a.logmu.Unlock()
@@ -329,6 +439,8 @@ func (r *Run) step(s *Step) {
 			a.logmu.Unlock()
 			_ = a.c.SendRaw(b)
 		}
+	case "release":
+		r.release(s)
 	case "terminate":
 		r.Rec.Log(inproc.Event{"e": "terminate", "cid": s.Cid})
 		r.B.Srv.ClientService().TerminateSession(s.Cid)
@@ -377,6 +489,10 @@ func (a *actor) reader() {
 				a.muted = true
 			}
 			a.logmu.Unlock()
+			a.mu.Lock()
+			a.eofSeen = true
+			a.cond.Broadcast()
+			a.mu.Unlock()
 			return
 		}
 		a.logmu.Lock()
@@ -389,6 +505,64 @@ func (a *actor) reader() {
 		a.cond.Broadcast()
 		a.mu.Unlock()
 	}
+}
+
+// olderOpen returns the k of every OLDER connection with a's client id that was not ended by the script and whose end has
+// still not been read 1.5 s from now.  Older: registered by the broker before a (order of the broker's own register
+// events; hook mode), or - without hook events - acknowledged before a's CONNECT was sent.
+func (r *Run) olderOpen(a *actor) []int {
+	r.amu.Lock()
+	var others []*actor
+	for _, o := range r.actors {
+		if o != a && o.cid == a.cid {
+			others = append(others, o)
+		}
+	}
+	r.amu.Unlock()
+	open := []int{}
+	if len(others) == 0 {
+		return open
+	}
+	before := map[string]bool{} // connections registered before a (hook mode)
+	if r.Sc.Hooks {
+		me := a.c.LocalAddr()
+		found := false
+		for _, e := range r.Rec.Events() {
+			if e["e"] == "hook" && e["h"] == "register" {
+				c, _ := e["conn"].(string)
+				if c == me {
+					found = true
+					break
+				}
+				before[c] = true
+			}
+		}
+		if !found {
+			return open
+		}
+	}
+	deadline := time.Now().Add(1500 * time.Millisecond)
+	for _, o := range others {
+		o.mu.Lock()
+		older := o.acked && o.ackPos <= a.connectPos
+		if r.Sc.Hooks {
+			older = before[o.c.LocalAddr()]
+		}
+		if !older || o.closedByUs {
+			o.mu.Unlock()
+			continue
+		}
+		for !o.eofSeen && !o.closedByUs && time.Now().Before(deadline) {
+			o.mu.Unlock()
+			time.Sleep(time.Millisecond)
+			o.mu.Lock()
+		}
+		if !o.eofSeen && !o.closedByUs {
+			open = append(open, o.k)
+		}
+		o.mu.Unlock()
+	}
+	return open
 }
 
 func propsU32(p *uint32) int64 {
@@ -415,7 +589,19 @@ func (a *actor) logRecv(p *mw.Packet) {
 				e["maxpkt"] = int(*p.Props.MaxPacketSize)
 			}
 		}
+		if p.Code == 0 {
+			// "the older connection is closed before the newer one is acknowledged": the broker closes the displaced socket
+			// before it writes this CONNACK, so the end of every acknowledged older connection with this client id that we
+			// did not end ourselves is readable by now; wait (bounded) until its reader has logged it
+			e["olderopen"] = a.run.olderOpen(a)
+		}
 		rec.Log(e)
+		if p.Code == 0 {
+			a.mu.Lock()
+			a.acked = true
+			a.ackPos = rec.Len()
+			a.mu.Unlock()
+		}
 	case mw.SUBACK:
 		codes := make([]int, len(p.Codes))
 		for i, c := range p.Codes {
@@ -636,9 +822,21 @@ func (r *Run) connect(s *Step) {
 	p.Version = ver
 	ev["size"] = mw.Size(p)
 	r.Rec.Log(ev)
+	a.connectPos = r.Rec.Len()
+	if s.Gated {
+		r.gmu.Lock()
+		r.gated[c.LocalAddr()] = true
+		r.gmu.Unlock()
+	}
 	go a.reader()
 	if err := c.Send(p); err != nil {
 		r.note("connect send error: " + err.Error())
+		return
+	}
+	if s.Gated {
+		if r.settle(a, 3*time.Second) == "timeout" {
+			r.note(fmt.Sprintf("schedule: connection %d neither parked nor finished 3 s after its CONNECT", s.K))
+		}
 		return
 	}
 	pk, ok := a.wait(0, r.TO.Ack, func(p *mw.Packet) bool { return p.Type == mw.CONNACK })
@@ -860,7 +1058,9 @@ func (r *Run) disconnect(s *Step) {
 		p.Props = &mw.Props{SessionExpiry: &v}
 		exp = *s.Expiry
 	}
+	a.mu.Lock()
 	a.closedByUs = true
+	a.mu.Unlock()
 	a.logmu.Lock()
 	if a.muted { // the broker closed the connection before us
 		a.logmu.Unlock()
@@ -882,7 +1082,9 @@ func (r *Run) abort(s *Step) {
 	if a == nil {
 		return
 	}
+	a.mu.Lock()
 	a.closedByUs = true
+	a.mu.Unlock()
 	a.logmu.Lock()
 	if a.muted {
 		a.logmu.Unlock()
@@ -986,7 +1188,6 @@ func WriteTrace(w io.Writer, evs []inproc.Event) (int, error) {
 	}
 	return n, nil
 }
-
 
 // stats logs a snapshot of the broker's statistics: the global ones and those of every client id that any actor
 // of this run has used (absent = the broker has no per-client record).
